@@ -280,7 +280,7 @@ def design_level(chk, pid, thorough):
     from . import lattice, absm
     sx = '_T' if thorough else ''
     if pid in ('C10', 'C16'):
-        r = run_tlc('LatticeMC', 'LatticeMC_C10' + sx + '.cfg', workers=16, timeout=1200 if thorough else 3000, seed=chk.seed + 1,
+        r = run_tlc('LatticeMC', 'LatticeMC_C10' + sx + '.cfg', workers=16, timeout=600 if thorough else 3000, seed=chk.seed + 1,
                     allow_timeout=thorough)
         chk.tlc(r, 'LatticeMC C10order: reversing every neighbour list leaves the canonical result unchanged (design level, emitting-only)'
                    + (' [time limit reached: partial exploration]' if r.timed_out else ''))
@@ -288,7 +288,7 @@ def design_level(chk, pid, thorough):
             raise common.MachineryError('design-level violation of listing-order invariance: ' + r.tail[-2500:])
         # with non-emitting states the same statement is not a theorem of the algorithm (finding F-ne-order); TLC is
         # asked for a counterexample on the specification (small scope: none; the larger thorough scope has one)
-        rn = run_tlc('LatticeMC', 'LatticeMC_C10n' + sx + '.cfg', workers=16, timeout=1500 if thorough else 600, seed=chk.seed + 1,
+        rn = run_tlc('LatticeMC', 'LatticeMC_C10n' + sx + '.cfg', workers=16, timeout=900 if thorough else 600, seed=chk.seed + 1,
                      allow_violation=True, allow_timeout=True)
         chk.tlc(rn, 'LatticeMC C10orderNE: the same with non-emitting states (informational: F-ne-order at design level)')
         chk.cov['design_level_listing_order_with_non_emitting_states'] = (
@@ -297,14 +297,14 @@ def design_level(chk, pid, thorough):
         return []
     if pid != 'C19':
         return []
-    r = run_tlc('LatticeMC', 'LatticeMC_C19' + sx + '.cfg', workers=16, timeout=1500 if thorough else 3000, seed=chk.seed + 1,
+    r = run_tlc('LatticeMC', 'LatticeMC_C19' + sx + '.cfg', workers=16, timeout=600 if thorough else 3000, seed=chk.seed + 1,
                 allow_timeout=thorough)
     chk.tlc(r, 'LatticeMC C19all: with the logger at DEBUG the observables are those of the default level (design level)'
                + (' [time limit reached: partial exploration]' if r.timed_out else ''))
     if r.invariant_violated:
         raise common.MachineryError('design-level violation of C19all: ' + r.tail[-2500:])
     if thorough:
-        rx = run_tlc('LatticeMC', 'LatticeMC_C19x' + sx + '.cfg', workers=16, timeout=1200, seed=chk.seed + 1, allow_timeout=True)
+        rx = run_tlc('LatticeMC', 'LatticeMC_C19x' + sx + '.cfg', workers=16, timeout=600, seed=chk.seed + 1, allow_timeout=True)
         chk.tlc(rx, 'LatticeMC C19all on the non-emitting, node-state heavy scope (where the two repaired defects lived)'
                     + (' [time limit reached: partial exploration]' if rx.timed_out else ''))
         if rx.invariant_violated:
